@@ -272,7 +272,7 @@ Proof.
       * use_fst H'. apply close_inv.
     + inversion H'; subst. intro; split; intro; [congruence|auto].
   - (* stream moves *)
-    inversion H; subst. intro C'. split; intro Ax; [cbn in Ax; congruence|]. cbn. apply Ia; assumption.
+    inversion H; subst. intro C'. split; intro Ax; cbn in Ax; [apply Iu in Ax|apply Ia in Ax]; exact Ax.
 Qed.
 
 Lemma init_inv : forall g, inv (init g).
@@ -309,7 +309,7 @@ Theorem prefix_starves :
   exists g ls s os,
     exec_prefix g (init g) ls = Some (s, os) /\ closed s = false /\ cover_ok (snap_of s) = false.
 Proof.
-  exists (mkCfg 20 10 23 20 10 10 false RNone SFail),
+  exists (mkCfg 20 10 23 20 10 10 false RNone SFail 0),
          [LAdvance 5; LConnect 20 true 13 10; LSrvRefresh false 0; LAdvance 10; LFire; LPong;
           LAdvance 10; LFire; LAdvance 10; LFire; LFire].
   eexists. eexists. vm_compute. repeat split; reflexivity.
@@ -469,6 +469,25 @@ Proof.
   - apply IH; assumption.
 Qed.
 
+Lemma tick_pos_K : forall l s, K s -> K (fst (tick_pos s l)).
+Proof.
+  induction l as [|b r IH]; intros s H; cbn [tick_pos]; [assumption|].
+  destruct (closed s); [assumption|].
+  destruct (sb_server b); [apply close_K; assumption|].
+  specialize (IH (set_subs s (filter (fun x => negb (sb_name x =? sb_name b)) (subs s)))).
+  destruct (tick_pos _ r) as [s2 o2]. cbn [fst] in *. apply IH. eapply K_ext; eauto.
+Qed.
+
+Lemma tick_K : forall g s, K s -> K (fst (tick g s)).
+Proof.
+  intros g s H. unfold tick.
+  pose proof (tick_subs_K g (subs (set_subs s (stamp g s (subs s)))) (set_subs s (stamp g s (subs s)))) as A.
+  destruct (tick_subs g (set_subs s (stamp g s (subs s))) _) as [s1 o1]. cbn [fst] in A.
+  assert (K1 : K s1) by (apply A; eapply K_ext; eauto).
+  pose proof (tick_pos_K (filter (fun b => existsb (fun x => sb_name x =? sb_name b) (subs s1)) (filter (pos_invalid g s) (subs s))) s1 K1) as B.
+  destruct (tick_pos s1 _) as [s2 o2]. exact B.
+Qed.
+
 Lemma schedule_K : forall s, K s -> K (schedule s).
 Proof. intros s H. unfold schedule. destruct (closed s); [assumption|]. eapply K_ext; eauto. Qed.
 
@@ -484,7 +503,7 @@ Proof.
       inversion H'; subst; assumption.
     + destruct (unusable (upd_armed s None)).
       * use_fst H'. apply close_K. apply schedule_K. eapply K_ext; eauto.
-      * use_fst H'. apply tick_subs_K. apply schedule_K. eapply K_ext; eauto.
+      * use_fst H'. apply tick_K. apply schedule_K. eapply K_ext; eauto.
     + assert (X : forall t, K t -> K (fst (check_expired g t))).
       { intros t Kt. unfold check_expired. destruct (closed t || (exp t =? 0)); [assumption|].
         destruct (now t <? exp t); cbn [fst];
